@@ -69,6 +69,12 @@ template <> struct layer<2> { using type = backend::morton<V, A, false>; };
 template <> struct layer<3> { using type = backend::hilbert<V, A>; };
 #endif
 constexpr u64 BAD = ~u64(0);
+constexpr u64 NEGZ = u64(1) << 62;        // id of a cell all of whose components are -0.0
+// what the cell of row-major rank k holds in component q: 4*id+q with id = k+1, except that every seventh cell holds -0.0
+// throughout (a conversion must carry the sign of zero: "the destination is zero-filled anyway" is not an argument)
+static inline bool negz_cell(u64 k) { return k % 7 == 3; }
+static inline T expected(u64 k, std::size_t q) { return negz_cell(k) ? -T(0) : static_cast<T>(4 * (k + 1) + q); }
+static inline bool same_bits(T a, T b) { return std::memcmp(&a, &b, sizeof(T)) == 0; }
 
 template <typename F> void forall(const std::vector<u64> & sz, F f) {
   std::vector<u64> c(N, 0); u64 total = 1; for (auto s : sz) total *= s;
@@ -87,6 +93,8 @@ template <typename AO> std::vector<u64> decode(const AO & a) {
     const auto & cell = vf::arr_data(a)[i];
     bool zero = true; for (std::size_t q = 0; q < M; ++q) zero = zero && cell[q] == T(0) && !std::signbit(cell[q]);
     if (zero) { ids[i] = 0; continue; }
+    bool nz = true; for (std::size_t q = 0; q < M; ++q) nz = nz && cell[q] == T(0) && std::signbit(cell[q]);
+    if (nz) { ids[i] = NEGZ; continue; }
     T v0 = cell[0];
     u64 id = static_cast<u64>(v0) / 4;
     bool good = v0 > 0 && v0 == static_cast<T>(4 * id) && id > 0;
@@ -114,7 +122,7 @@ field<SA> make_orig(const std::vector<u64> & sz) {
   typename field<SA>::view_t v(orig);
   forall(sz, [&](const std::vector<u64> & c, u64 k) {
     auto cc = mk<typename field<SA>::coordinate_t>(c);
-    for (std::size_t q = 0; q < M; ++q) v.at(cc)[q] = static_cast<T>(4 * (k + 1) + q);
+    for (std::size_t q = 0; q < M; ++q) v.at(cc)[q] = expected(k, q);
   });
   return orig;
 }
@@ -129,7 +137,7 @@ template <typename FA, typename FB> u64 lattice_diff(const FA & a, const FB & b,
     bool ok = true;
     for (std::size_t q = 0; q < M; ++q) {
       T x = va.at(ca)[q], y = vb.at(cb)[q];
-      ok = ok && std::memcmp(&x, &y, sizeof(T)) == 0 && (!expect_ids || x == static_cast<T>(4 * (k + 1) + q));
+      ok = ok && same_bits(x, y) && (!expect_ids || same_bits(x, expected(k, q)));
     }
     if (!ok) ++bad;
   });
@@ -215,7 +223,7 @@ template <int I1, int L1, int I2, int L2> std::string run_stack(const std::vecto
     ++asked;
     auto o1 = vs.at(x); auto o2 = vd.at(x);
     bool ok = true;
-    for (std::size_t q = 0; q < M; ++q) { T p = o1[q], r = o2[q]; ok = ok && std::memcmp(&p, &r, sizeof(T)) == 0 && p == static_cast<T>(4 * (k + 1) + q); }
+    for (std::size_t q = 0; q < M; ++q) { T p = o1[q], r = o2[q]; ok = ok && (std::memcmp(&p, &r, sizeof(T)) == 0 || (p == T(0) && r == T(0))) && p == expected(k, q); }
     if (!ok) ++bad;
   });
   field<S1> s2(s);
